@@ -21,7 +21,8 @@ TRUSTED = ["re.sub / the regular expression are replaced by the group decomposit
            "are stated as spec functions in this file (cross-checked natively against str.format and libc sprintf in the replay)",
            "indices are non-negative integers; (P == 0 and n == 0) excluded (printf prints no digits there)",
            "the %s / filename substitution of the template is not under contract"]
-NOT_DECIDED = "the %s handling of the template and templates with several integer conversions"
+NOT_DECIDED = ("the %s handling of the template and templates with several integer conversions; which index is expanded for which frame "
+               "(consume_stream_datum) is checked for datums of 0-2 frames only (bounded stand-in, not counted)")
 
 FLAGSETS = ["", "0", "-", "+", " ", "#", "-0", "+0", " 0", "-+", "- ", "+ ", "-+0", "- 0", "+ 0", "#0", "-#", "-+ 0"]
 
@@ -203,3 +204,66 @@ def twin(I):
     out = I.call_value(f, match)
     py = py_render(I, pieces(out.t), L)
     w.check("twin:zero flag ignored", same_render(py, c_render("", W, None, L)))
+
+
+# ------------------------------------------------------------------------------------------------ which index is expanded for which frame
+MQ = f"{MC}:MultipartRelatedConsolidator"
+E_IDX = (f"{MQ}.consume_stream_datum#ensures[the files registered for a datum with indices [a, b) are get_datum_uri(i) for i = a*f .. b*f - 1 in order "
+         "(f = files per datum), whatever was registered before; assets numbered on from the existing ones]")
+E_URI = f"{MQ}.get_datum_uri#ensures[uri + template.format(index), for a permitted extension]"
+
+
+@task("multipart.consume_stream_datum", PROP, functions=[f"{MQ}.consume_stream_datum", f"{MQ}.get_datum_uri"], expect=[E_IDX, E_URI],
+      bounded="a stream datum of 0-2 frames and 1 or 2 files per frame (the first index and the number of files registered earlier are arbitrary)")
+def multipart_consume(I):
+    """the statement's 'file names derived for each frame index': the index handed to the (proved) template expansion is the frame's own
+    file index, a function of the datum's indices only - not of how many files happen to be registered already"""
+    w = I.w
+    shape = w.choose(["1/1", "4/2", "6/3"], "datum_shape[0] / chunk_shape[0]")
+    d0, c0 = (int(x) for x in shape.split("/"))
+    jm = w.choose(["concat", "stack"], "join_method")
+    f = d0 // c0 if jm == "concat" else 1
+    a = w.int("idx_start")
+    k = w.choose([0, 1, 2], "frames in the datum")
+    n0 = w.choose([0, 3], "files registered earlier")
+    w.add(a >= 0)
+    asked = []
+    fmt_calls = []
+    template = opaque(I, "template", methods={"format": lambda I_, o, a_, k_: fmt_calls.append(a_[0]) or Opaque(w.fresh("name"), {"token": "name", "arg": a_[0]})})
+    uri = opaque(I, "uri", binop=lambda I_, op, x, y: ("uri+", y))
+    old_assets = [Opaque(f"asset{i}", {"token": "asset"}) for i in range(n0)]
+    old_uris = [Opaque(f"uri{i}", {"token": "olduri"}) for i in range(n0)]
+    assets, uris = list(old_assets), list(old_uris)
+    o = Obj(I.P.class_info(MC, "MultipartRelatedConsolidator"),
+            {"datum_shape": (d0, 4, 4), "chunk_shape": (c0, 4, 4), "join_method": jm, "assets": assets, "data_uris": uris,
+             "template": template, "uri": uri, "permitted_extensions": {".tif", ".tiff"}})
+    w.stubs["os.path.splitext"] = lambda I_, a_, k_: ("img", ".tif")
+    w.stubs[(MC, "Asset")] = native(lambda I_, a_, k_: dict(k_))
+    base_calls = []
+
+    def base_hook(I_, fn, args, kwargs):
+        base_calls.append(args[1])          # (ConsolidatorBase.consume_stream_datum has its own contract: C36)
+        return None
+        yield
+    I.call_hooks[f"{MC}:ConsolidatorBase.consume_stream_datum"] = base_hook
+    doc = {"indices": {"start": a, "stop": a + k}, "seq_nums": {"start": w.int("seq_start"), "stop": w.int("seq_start") + k}}
+    rp = {"replay": "consolidators.multipart_consume", "shape": shape, "join_method": jm, "frames": k, "earlier": n0}
+    res = catch(I, I.getattr(o, "consume_stream_datum"), doc)
+    if res[0] == "raise":
+        w.fail(E_IDX, rp)
+        return
+    n = k * f
+    ok_len = len(fmt_calls) == n and len(uris) == n0 + n and len(assets) == n0 + n
+    cond = ok_len
+    if ok_len:
+        cond = And(*([Eq(fmt_calls[j], a * f + j) for j in range(n)] or [True]))
+        struct = (all(x is y for x, y in zip(uris[:n0], old_uris)) and all(x is y for x, y in zip(assets[:n0], old_assets))
+                  and all(isinstance(uris[n0 + j], tuple) and uris[n0 + j][0] == "uri+" and uris[n0 + j][1].spec.get("arg") is fmt_calls[j]
+                          and isinstance(assets[n0 + j], dict) and assets[n0 + j].get("data_uri") is uris[n0 + j]
+                          and assets[n0 + j].get("num") == n0 + j + 1 and assets[n0 + j].get("parameter") == "data_uris" for j in range(n))
+                  and len(base_calls) == 1 and base_calls[0] is doc)
+        cond = And(cond, struct)
+    w.check(E_IDX, cond, rp)
+    # get_datum_uri itself
+    got = call_method(I, o, "get_datum_uri", w.int("index"))
+    w.check(E_URI, isinstance(got, tuple) and got[0] == "uri+" and got[1].spec.get("arg") is fmt_calls[-1] and Eq(fmt_calls[-1], w.int("index")), rp)
